@@ -147,6 +147,12 @@ def _r13_prefix_defaults(ctx):
                 for y in subterms(v):
                     if y[0] == "const" and isinstance(y[1], int) and not isinstance(y[1], bool):
                         consts.add(y[1])
+                    if y[0] == "const" and isinstance(y[1], tuple) and y[1] and y[1][0] == "named":
+                        # `const DEFAULT_VALID_LIFETIME: Duration = Duration::from_secs(n)`
+                        from .c10 import _duration_const_secs
+                        k = _duration_const_secs(P, y[1][1])
+                        if isinstance(k, int):
+                            consts.add(k)
                     if y[0] == "agg" and isinstance(y[1], str) and y[1].startswith("closure:") and y[1][8:] in P.bodies:
                         for _, k, _ in body_consts(P.bodies[y[1][8:]]):
                             if isinstance(k, dict) and const_int(k) is not None:
